@@ -7,22 +7,25 @@ CONSTANTS Scripts, FaultChoices(_)
 S(tests, raises) == [tests |-> tests, raises |-> raises]
 
 \* quick: 2 workers x <= 1 test (2..4 queue messages each), one fault anywhere
-ScriptQ == {S(<<>>, FALSE), S(<<"raw">>, FALSE), S(<<"ok">>, FALSE)}
+ScriptQ == {S(<<>>, "no"), S(<<"raw">>, "no"), S(<<"ok">>, "no")}
 ScriptsQ == [1..2 -> ScriptQ]
 \* broken runners (run() raises), 1..2 workers
-ScriptsB == { <<S(<<>>, TRUE), S(<<"er">>, FALSE)>>, <<S(<<"raw">>, TRUE)>>, <<S(<<>>, TRUE), S(<<>>, TRUE)>> }
+ScriptsB == { <<S(<<"raw">>, "base"), S(<<>>, "no")>>, <<S(<<>>, "exc"), S(<<"er">>, "no")>>, <<S(<<"raw">>, "exc")>>, <<S(<<>>, "exc"), S(<<>>, "exc")>> }
 \* thorough
-ScriptT == {S(<<>>, FALSE), S(<<"raw">>, FALSE)}
-Scripts3 == [1..3 -> ScriptT] \cup { <<S(<<>>, TRUE), S(<<>>, FALSE), S(<<"ok">>, FALSE)>> }
-Scripts4 == { <<S(<<>>, FALSE), S(<<>>, FALSE), S(<<>>, FALSE), S(<<"raw">>, FALSE)>> }
-Scripts13 == [1..1 -> {S(<<"ok", "er", "raw">>, FALSE), S(<<"ok", "er", "raw">>, TRUE)}]
-             \cup { <<S(<<"ok", "raw">>, FALSE), S(<<"er">>, TRUE)>> }
-ScriptsX == { <<S(<<"ok">>, FALSE)>>, <<S(<<>>, TRUE)>>, <<S(<<>>, FALSE), S(<<>>, FALSE)>> }
-ScriptsS == [1..3 -> ScriptQ \cup {S(<<"er", "raw">>, FALSE), S(<<>>, TRUE), S(<<"raw">>, TRUE)}] \cup [1..4 -> ScriptT \cup {S(<<>>, TRUE)}]
+ScriptT == {S(<<>>, "no"), S(<<"raw">>, "no")}
+Scripts3 == [1..3 -> ScriptT] \cup { <<S(<<>>, "exc"), S(<<>>, "no"), S(<<"ok">>, "no")>> }
+Scripts4 == { <<S(<<>>, "no"), S(<<>>, "no"), S(<<>>, "no"), S(<<"raw">>, "no")>> }
+Scripts13 == [1..1 -> {S(<<"ok", "er", "raw">>, "no"), S(<<"ok", "er", "raw">>, "exc")}]
+             \cup { <<S(<<"ok", "raw">>, "no"), S(<<"er">>, "exc")>> }
+ScriptsXq == { <<S(<<"ok">>, "no")>> }
+ScriptsX == { <<S(<<"ok">>, "no")>>, <<S(<<>>, "no"), S(<<>>, "no")>> }
+ScriptsS == [1..3 -> ScriptQ \cup {S(<<"er", "raw">>, "no"), S(<<>>, "exc"), S(<<"raw">>, "exc")}] \cup [1..4 -> ScriptT \cup {S(<<>>, "exc")}]
 
 NoFaults(s) == {<<NoFault, NoFault, NoFault>>}
 OneFault(s) == {<<NoFault, NoFault, NoFault>>} \cup {<<k, NoFault, NoFault>> : k \in 0..Len(s)}
                \cup {<<NoFault, j, NoFault>> : j \in 0..2} \cup {<<NoFault, NoFault, n>> : n \in 0..2}
+ExpFaults(s) == {<<NoFault, NoFault, NoFault>>, <<Len(s), NoFault, NoFault>>, <<NoFault, 1, NoFault>>, <<NoFault, NoFault, 0>>}
+ExpFaultsQ(s) == IF Len(s) = 1 THEN ExpFaults(s) ELSE {<<NoFault, NoFault, NoFault>>}
 AnyFaults(s) == {<<k, j, n>> : k \in {NoFault} \cup (0..Len(s)), j \in {NoFault, 0, 1, 3}, n \in {NoFault, 0, 1, 2, 4}}
 
 MCInit == \E s \in Scripts : \E f \in FaultChoices(s) : InitWith(s, f[1], f[2], f[3])
